@@ -23,6 +23,24 @@ pub fn get_scripted(events: Vec<Ev>, configure: impl FnOnce(RequestBuilder) -> R
     (res, net, guard)
 }
 
+/// An earlier exchange on the calling thread: a chunked response of which the caller reads only the first `n` bytes (of 40)
+/// before dropping it. Nothing of it may show up in whatever the thread does next.
+pub fn prelude_partial_read(n: usize) {
+    let body = b"PRELUDE-0123456789PRELUDE-abcdefghijklmn";
+    let mut wire = b"HTTP/1.1 200 OK\r\nTransfer-Encoding: chunked\r\n\r\n".to_vec();
+    for part in body.chunks(20) {
+        wire.extend_from_slice(format!("{:x}\r\n", part.len()).as_bytes());
+        wire.extend_from_slice(part);
+        wire.extend_from_slice(b"\r\n");
+    }
+    wire.extend_from_slice(b"0\r\n\r\n");
+    let (_guard, _net) = serve_scripts(vec![vec![Ev::Data(wire), Ev::Eof]]);
+    if let Ok(mut resp) = attohttpc::get("http://prelude.test/").proxy_settings(no_proxy()).send() {
+        let mut buf = vec![0u8; n.clamp(1, body.len())];
+        let _ = resp.read_exact(&mut buf);
+    }
+}
+
 #[derive(Debug, Clone, PartialEq, Eq)]
 pub enum RdEv {
     /// Ok(n) for a buffer of the given size
